@@ -31,7 +31,7 @@ PROPS = {
         rule='L0 differential: every prefix length octet 0..255 x exact/short/long for IPv4/IPv6 x plain/add-path, every truncation, generated and mutated lists; MP_REACH with every next-hop length octet x straddling attribute lengths, every flags octet'),
     'C20': dict(title='Peer registry behaves as a consistent map and rejects unusable configs', l0=True, lean=['CoreBGP.Props.C20'],
         rule='full configuration grid (router id kind x remote/local address kind x AS {0,1,65535,65536,2^32-1} x hold {0,1,2,3,65535} x port {-1,0,1,179,65535,65536}) through NewServer+AddPeer; seeded sequential registry operation sequences (<=13 ops over 6 keys, with and without Serve/Close) compared step by step with the model and the abstract map'),
-    'C12': dict(title='Protocol errors damp the peer; Cease and transport faults do not', l0=True, live=True, lean=['CoreBGP.Props.C12'],
+    'C12': dict(title='Protocol errors damp the peer; Cease and transport faults do not', l0=True, live=True, lean=['CoreBGP.Props.C12', 'CoreBGP.Props.C12L2'],
         rule='exhaustive error histories up to length 4 (thorough 5) over the gap alphabet {0,1,10,100,299,300,301,1000 s} and random long ones through the real updateStartupDelay; every NOTIFICATION code 0..255 x sent/received x wrapped/bare through the real handleError'),
     'C05': dict(title='No remote input or API sequence can crash or wedge the process', l0=True, live=True, lean=['CoreBGP.Props.C05'], clauses=r'C05',
         rule='L0 differential with recover (PANIC is an output like any other) over every decoding entry point: the generators of C02/C08/C15/C16/C18/C19 plus oversize inputs (65535..70000 bytes with extreme length fields)'),
@@ -52,6 +52,12 @@ PROPS = {
         assumptions=['real-time bounds are observed with slack (scheduler latency is not proved): partial clause']),
     'C13': dict(title='Only connections from configured peers to the configured address are served', live=True, lean=['CoreBGP.Props.C13'],
         rule='live admission grid: listener {specific, wildcard} x peer with/without local address x source {configured, other loopback address} x destination {configured, other} x peer state at arrival {idle, inbound in progress, Established, held down}; zero bytes + EOF vs OPEN judged from the trace, an unrelated Established session must stay alive'),
+    'C01': dict(title='One Established session per peer; well-formed plugin callback history', live=True, lean=['CoreBGP.Props.C01'],
+        rule='union of the live families in which sessions come and go (collision grid + forced windows, state x message table, shutdown at every point, reconnection fault sequences): every trace must be a trace of the L2 transition system (state-set tracking) and pass the plugin-history monitor (prefix of (E+E-(H+H-)*C+C-)*, complete at Close/DeletePeer, GetCapabilities / OnOpenMessage counts)',
+        assumptions=['plugin callbacks are atomic enter/exit pairs that always return']),
+    'C11': dict(title='Reconnection liveness and retry pacing after non-damping faults', live=True, lean=['CoreBGP.Props.C11'],
+        rule='live fault sequences (refuse, close / reset / Cease at OpenSent / OpenConfirm / Established, seeded random sequences) followed by a well-behaved remote, idle-hold in {50,100,200} ms, passive and active peers, inbound session ending; pacing monitor on the exits from Idle and on dial timestamps, bound on time-to-Established',
+        assumptions=['real-time pacing / liveness bounds are observed with slack, not proved (partial clause)']),
 }
 
 # properties not claimed (yet), with the reason shown in MANIFEST.not_applicable
